@@ -7,7 +7,7 @@ PROP = "C16"
 def run(tier, seed):
     hc = hcommon.HandlerCheck(PROP, tier, seed)
     hc.gate()
-    for cfg, data, faults, extra_sm in sysprops.c16_cases(tier, hc.rng):
+    for cfg, data, faults, extra_sm in hcommon.share(sysprops.c16_cases(tier, hc.rng)):
         out = sysprops.run_c16_case(cfg, data, faults, extra_sm)
         nat, ntrace, _ = out["native"]
         for vfs in ("mem", "decoy"):
